@@ -79,7 +79,7 @@ def run_case(case, rep, record=True):
             rep.fail(f.bucket, f.detail, case)
     try:
         modes = dict(case.get("modes") or {})
-        modes["flat_actions"] = True
+        modes.setdefault("flat_actions", True)
         render = bool(case.get("render", True))
         specY, scnY = None, None
 
@@ -180,13 +180,14 @@ def run_case(case, rep, record=True):
                     B[0] = None
                 elif name == "third":
                     which = fop[1]
+                    tm = dict(fop[2]) if len(fop) > 2 else {}
                     if which == "x":
-                        third.append(sources.make_env(scnX))
+                        third.append(sources.make_env(scnX, **tm))       # the SAME Scenario object as A'
                     elif which == "y":
-                        third.append(sources.make_env(build_y()))
+                        third.append(sources.make_env(build_y(), **tm))
                     else:
                         import nasim
-                        third.append(sources.make_env(nasim.load_scenario(sources.shipped_path(which))))
+                        third.append(sources.make_env(nasim.load_scenario(sources.shipped_path(which)), **tm))
                     if len(third) > 2:
                         third.pop(0)
                 else:
@@ -256,13 +257,14 @@ def do_foreign(fop, state, build_y, scnX):
         state["B"] = None
     elif name == "third":
         which = fop[1]
-        if which == "x":
-            state["third"].append(sources.make_env(scnX))
-        elif which == "y":
-            state["third"].append(sources.make_env(build_y()))
+        tm = dict(fop[2]) if len(fop) > 2 else {}
+        if which == "x" and scnX is not None:
+            state["third"].append(sources.make_env(scnX, **tm))       # the SAME Scenario object
+        elif which == "y" or which == "x":
+            state["third"].append(sources.make_env(build_y(), **tm))
         else:
             import nasim
-            state["third"].append(sources.make_env(nasim.load_scenario(sources.shipped_path(which))))
+            state["third"].append(sources.make_env(nasim.load_scenario(sources.shipped_path(which)), **tm))
         state["third"] = state["third"][-2:]
 
 
@@ -287,7 +289,7 @@ def model_run(case, with_foreign, build_y=None):
         if with_foreign:
             for fop in case.get("pre", []):
                 do_foreign(fop if fop[0] != "third" else ("third", "y"), fstate, build_y, None)
-        h = walk.build_harness(case["x"], {})
+        h = walk.build_harness(case["x"], {"flat_actions": bool((case.get("modes") or {}).get("flat_actions", True))})
         scnX = h.scn
         check_initial(h, h.scn, null)
         O.c03_reset(h, h.env.current_state.tensor, null, "initial state")
@@ -304,7 +306,8 @@ def model_run(case, with_foreign, build_y=None):
             if op[0] == "g":
                 continue
             res = walk.run_history(h, [tuple(op)], on_rec, None, both_sides=False, do_gen=False)
-            check_mask(h, null, f"after {op}")
+            if h.flat:
+                check_mask(h, null, f"after {op}")
             if res == "diverged":
                 return Failure("diverged", f"state diverges from the reference model: {h.diverged}", bucket="diverged")
     except walk.SourceRejected:
@@ -378,7 +381,8 @@ FOREIGN = st.one_of(
     st.tuples(st.just("reset_B")),
     st.tuples(st.just("step_B"), st.integers(1, 4), st.integers(0, 10000)),
     st.tuples(st.just("drop_B")),
-    st.tuples(st.just("third"), st.sampled_from(["x", "y", "tiny", "small", "tiny-small"])),
+    st.tuples(st.just("third"), st.sampled_from(["x", "x", "y", "tiny", "small", "tiny-small"]),
+              st.fixed_dictionaries({"fully_obs": st.booleans(), "flat_actions": st.booleans(), "flat_obs": st.booleans()})),
 )
 
 
@@ -424,7 +428,8 @@ def cases(draw, tier):
             sched.append(f)
         else:
             sched.append([])
-    modes = draw(st.fixed_dictionaries({"fully_obs": st.booleans(), "flat_obs": st.booleans()}))
+    modes = draw(st.fixed_dictionaries({"fully_obs": st.booleans(), "flat_obs": st.booleans(),
+                                        "flat_actions": st.sampled_from([True, True, False])}))
     pre = []
     if draw(st.booleans()):
         pre.append(("construct_B", {"fully_obs": False, "flat_actions": True, "flat_obs": True}))
